@@ -58,6 +58,11 @@ def table (cmd : String) (a : List String) : Option String :=
   | "cv.read_loop" => some (run pLoop read_loop sOptLoop' a)
   | "cv.write_loops" => some (run (pList (pSomeNone' pLoopV')) write_loops (fun b => sLoops (b.loops, b.extra)) a)
   | "cv.read_loops" => some (run pLoopList (fun l => read_loops ⟨l, []⟩) (sList sOptLoop') a)
+  | "cv.read_beatgrid_marker" => some (run pMarker read_beatgrid_marker sGM a)
+  | "cv.read_beatgrid_markers" => some (run (pList pMarker) read_beatgrid_markers (sList sGM) a)
+  | "cv.write_beatgrid_markers" => some (run (pList pGM) write_beatgrid_markers (sList sMarker) a)
+  | "cv.write_beatgrid" => some (run (pList pGM) write_beatgrid
+      (fun p => unwords [sU8 p.1, sList sMarker p.2.1, sList sMarker p.2.2]) a)
   | "cv.empty_cue" => some (run (pure ()) (fun _ => quick_cue_blob_empty) sCue a)
   | "cv.empty_loop" => some (run (pure ()) (fun _ => loop_blob_empty) sLoop a)
   | _ => none
